@@ -6,6 +6,7 @@ package harness
 import (
 	"fmt"
 	"os"
+	"os/exec"
 	"regexp"
 	"strings"
 	"testing"
@@ -45,7 +46,16 @@ func mirrored(cfg runCfg, total int, mk func(i int) []Scenario) []Scenario {
 
 func c04Scenarios(cfg runCfg) []Scenario {
 	np := cfg.n(2400, 20)
-	return mirrored(cfg, np, func(i int) []Scenario {
+	hist := func() []Scenario {
+		var out []Scenario
+		for j := 0; j < cfg.n(320, 10); j++ {
+			if cfg.mine(j) {
+				out = append(out, Scenario{Family: "history", Seed: mix(cfg.seed, 4, 44, uint64(j))})
+			}
+		}
+		return out
+	}()
+	return append(hist, mirrored(cfg, np, func(i int) []Scenario {
 		seed := mix(cfg.seed, 4, uint64(i))
 		switch mix(seed, 404) % 4 {
 		case 0:
@@ -55,7 +65,36 @@ func c04Scenarios(cfg runCfg) []Scenario {
 		default:
 			return []Scenario{{Family: "record", Seed: seed, N: 20}}
 		}
-	})
+	})...)
+}
+
+// c04HistoryChild prints the values a regexp generator produces for fixed seeds, after first using other
+// regexp generators (the process-wide caches then have another history).
+func c04HistoryChild() int {
+	for _, w := range strings.Split(os.Getenv("C04_WARM"), "\x1f") {
+		if w == "" {
+			continue
+		}
+		g := rapid.StringMatching(w)
+		for s := 0; s < 3; s++ {
+			func() {
+				defer func() { _ = recover() }()
+				_ = g.Example(s)
+			}()
+		}
+	}
+	g := rapid.StringMatching(os.Getenv("C04_TARGET"))
+	for s := 0; s < 24; s++ {
+		func() {
+			defer func() {
+				if p := recover(); p != nil {
+					fmt.Printf("H %d panic\n", s)
+				}
+			}()
+			fmt.Printf("H %d %q\n", s, g.Example(s))
+		}()
+	}
+	return 0
 }
 
 func outcomeStr(o rapid.VerifOutcome) string { return o.Kind + ":" + o.Msg }
@@ -81,6 +120,36 @@ func c04Run(t *testing.T, sc Scenario, res *Result) {
 	mirror := sc.X["mirror"] == "1"
 	r := newRng(sc.Seed, 0xc04)
 	switch sc.Family {
+	case "history":
+		// the values drawn for a seed must not depend on which other generators the process used before
+		self, _ := os.Executable()
+		target := pick(r, regexps)
+		var warm []string
+		for i, n := 0, r.between(2, 8); i < n; i++ {
+			warm = append(warm, pick(r, regexps))
+		}
+		run := func(w []string) string {
+			cmd := exec.Command(self, "-verif.child=c04hist")
+			cmd.Env = append(os.Environ(), "C04_TARGET="+target, "C04_WARM="+strings.Join(w, "\x1f"))
+			out, _ := cmd.Output()
+			var keep []string
+			for _, l := range strings.Split(string(out), "\n") {
+				if strings.HasPrefix(l, "H ") {
+					keep = append(keep, l)
+				}
+			}
+			return strings.Join(keep, "\n")
+		}
+		cold, warmed := run(nil), run(warm)
+		res.inc("history_pairs")
+		res.nontrivial("history/" + target + "/" + strings.Join(warm, ","))
+		if cold == "" {
+			res.inconclusive("history child produced no output")
+		} else if cold != warmed {
+			res.violate(sc, "c04/history", fmt.Sprintf("StringMatching(%q).Example(seed) gives other values in a process that used %q before", target, warm),
+				map[string]any{"target": target, "used_before": warm, "fresh_process": clip(cold, 600), "after_other_generators": clip(warmed, 600)})
+		}
+
 	case "example":
 		gx := buildGX(r, gxOpts{depth: r.intn(3)})
 		var dig []string
